@@ -8,6 +8,7 @@ import (
 	"net/http"
 	"net/http/httptest"
 	"strings"
+	"time"
 
 	connect "github.com/bufbuild/connect-go"
 	"github.com/bufbuild/connect-go/verifharness/internal/h"
@@ -339,6 +340,76 @@ func C02(r *h.Run) {
 				r.Sample("e2e_multi_error", map[string]any{"in": in, "client_error": fmt.Sprint(ex.ClientErr)})
 				checkError(r, "e2e_multi_error", in, ex.ClientErr, code, "the real failure", mkDetails(1), http.Header{"X-Err": {"kept"}})
 			}
+		}
+	}
+	// the handler side (an interceptor) answers with its error before it has read a LARGE request
+	// message, which the client is still writing: the client stops writing and reports that error
+	for _, proto := range protos {
+		for _, kind := range []string{"server", "client", "bidi"} {
+			cfg := envCfg{Proto: proto}
+			code := connect.CodePermissionDenied
+			retErr := mkError(code, "not for you", 1, http.Header{"X-Err": {"kept"}})
+			// what a real handler writes for this error, recorded once
+			var handler *connect.Handler
+			hopts := []connect.HandlerOption{connect.WithCodec(h.ToyCodec{}), connect.WithInterceptors(errIcpt{retErr})}
+			switch kind {
+			case "server":
+				handler = connect.NewServerStreamHandler("/verif.Svc/M", func(context.Context, *connect.Request[h.Raw], *connect.ServerStream[h.Raw]) error { return nil }, hopts...)
+			case "client":
+				handler = connect.NewClientStreamHandler("/verif.Svc/M", func(context.Context, *connect.ClientStream[h.Raw]) (*connect.Response[h.Raw], error) {
+					return connect.NewResponse(&h.Raw{}), nil
+				}, hopts...)
+			default:
+				handler = connect.NewBidiStreamHandler("/verif.Svc/M", func(context.Context, *connect.BidiStream[h.Raw, h.Raw]) error { return nil }, hopts...)
+			}
+			hreq := httptest.NewRequest(http.MethodPost, "/verif.Svc/M", bytes.NewReader(nil))
+			hreq.ProtoMajor, hreq.ProtoMinor = 2, 0
+			hreq.Header.Set("Content-Type", cfg.contentType(false))
+			rec := httptest.NewRecorder()
+			if p := safely(func() { handler.ServeHTTP(rec, hreq) }); p != nil {
+				r.Fail(h.Failure{Key: "error/panic", Family: "e2e_early_error", What: fmt.Sprint("panic: ", p), Input: proto})
+				continue
+			}
+			rhdr, rtrailer := splitTrailers(rec)
+			rbody := append([]byte(nil), rec.Body.Bytes()...)
+			big := bytes.Repeat([]byte("x"), 1<<20)
+			ec := &earlyClient{readBytes: 32 << 10, build: func() *http.Response {
+				return h.NewResponse(rec.Code, rhdr.Clone(), h.NewChunkBody([][]byte{rbody}, h.FinCleanEOF), rtrailer.Clone())
+			}}
+			var callErr error
+			timedOut, p := withWatchdog(5*time.Second, func() {
+				cl := connect.NewClient[h.Raw, h.Raw](ec, "http://verif.local/verif.Svc/M", clientOpts(cfg, "")...)
+				switch kind {
+				case "server":
+					st, err := cl.CallServerStream(context.Background(), connect.NewRequest(&h.Raw{B: big}))
+					if err != nil {
+						callErr = err
+						return
+					}
+					for st.Receive() {
+					}
+					callErr = st.Err()
+					_ = st.Close()
+				case "client":
+					st := cl.CallClientStream(context.Background())
+					_ = st.Send(&h.Raw{B: big})
+					_, callErr = st.CloseAndReceive()
+				default:
+					st := cl.CallBidiStream(context.Background())
+					_ = st.Send(&h.Raw{B: big})
+					_ = st.CloseRequest()
+					_, callErr = st.Receive()
+					_ = st.CloseResponse()
+				}
+			})
+			in := map[string]any{"proto": proto, "kind": kind, "code": code.String(), "source": "handler-side interceptor, before the request was read", "request_message_bytes": len(big), "peer_read_before_answering": 32 << 10}
+			r.Eval("e2e_early_error", fmt.Sprint(proto, kind))
+			if timedOut || p != nil {
+				r.Fail(h.Failure{Key: "error/panic-or-hang", Family: "e2e_early_error", What: fmt.Sprint("hang or panic: ", p), Input: in})
+				continue
+			}
+			r.Sample("e2e_early_error", map[string]any{"in": in, "client_error": fmt.Sprint(callErr)})
+			checkError(r, "e2e_early_error", in, callErr, code, "not for you", mkDetails(1), http.Header{"X-Err": {"kept"}})
 		}
 	}
 	// details whose message type is not linked into either binary (a gateway passing on the
